@@ -76,7 +76,14 @@ def preState (mode : Mode) (srtp : Bool) (hasApp : Bool) (nch : Nat) (peer : Pee
 def eventActs : String → Option (List (List Act))
   | "close" => some [[.callClose .localClose]]
   | "blockedSenderClose" => some [[.senderBlocks, .senderBlocks, .callClose .localClose]]
-  | "blockedSenderVanish" => some [[.senderBlocks, .senderBlocks, .iceDisconnect]]
+  | "blockedSenderVanish" => some [[.senderBlocks, .senderBlocks, .iceDisconnect], [.senderBlocks, .senderBlocks, .peerCloseNotify]]
+  -- the association is ended from inside the SCTP run loop / by DTLS while senders are parked
+  | "blockedSenderAbort" => some [[.senderBlocks, .senderBlocks, .peerAbort]]
+  | "blockedSenderShutdown" => some [[.senderBlocks, .senderBlocks, .peerShutdown]]
+  | "blockedSenderShutdownAck" => some [[.senderBlocks, .senderBlocks, .peerShutdownAck]]
+  | "blockedSenderCloseNotify" => some [[.senderBlocks, .senderBlocks, .peerCloseNotify]]
+  -- silent peer, short heartbeat: the SCTP layer gives up first (or the peer's teardown leaked a close_notify)
+  | "blockedSenderHeartbeat" => some [[.senderBlocks, .senderBlocks, .hbTimeout], [.senderBlocks, .senderBlocks, .peerCloseNotify]]
   | "closeChannelTwice" => some [[.closeChannel 0, .closeChannel 0]]
   | "closeChannelThenClose" => some [[.closeChannel 0, .callClose .localClose]]
   | "closeTwice" => some [[.callClose .localClose, .callClose .localClose, .callClose .localClose]]
@@ -86,7 +93,9 @@ def eventActs : String → Option (List (List Act))
   | "peerShutdown" => some [[.peerShutdown]]
   | "peerShutdownAck" => some [[.peerShutdownAck]]
   | "iceStop" => some [[.iceStop]]
-  | "peerVanish" => some [[.iceDisconnect]]
+  -- the harness emulates a vanishing peer by stopping the peer's ICE transport; `stop()` publishes Closed
+  -- *before* it clears the sockets, so the peer's own teardown can still get a close_notify onto the wire
+  | "peerVanish" => some [[.iceDisconnect], [.peerCloseNotify]]
   -- the peer's close(): its close_notify may or may not make it onto the wire before its sockets close
   | "peerClose" => some [[.peerCloseNotify], [.iceDisconnect]]
   | _ => none
